@@ -2,6 +2,7 @@ package props
 
 import (
 	"fmt"
+	"regexp"
 	"strings"
 
 	"github.com/acarl005/stripansi"
@@ -20,6 +21,8 @@ import (
 // cursor rests in column 0 below the last row. Which rows persist and how many
 // rows a frame has comes from the reference frame model (clocked scenarios).
 
+var c04TagFill = regexp.MustCompile(`\{\d+\}`)
+
 func init() {
 	register(&Prop{ID: "C04", Gen: genC04, New: func() interface{} { return new(engine.Scenario) }, Run: runC04, Journal: true})
 }
@@ -27,7 +30,7 @@ func init() {
 var profC04 = Profile{
 	MaxBars: 7, MinBars: 1, MaxSteps: 40, Refresh: []string{"manual", "manual", "manual", "manual", "manual", "none"}, QLens: []int{-1},
 	Pop: 35, Queue: 15, Prio: true, PrioOnFinished: true, Ext: 30, Text: 3, Rm: 30, NoPop: 20, AbortW: 2, TicksW: 10,
-	Pty: 55, PtyRowsMax: 8, Delay: 15, Fillers: []string{"tag", "bar", "spinner", "spinnerv"}, LateAdd: true, Cancel: 5, PrioMidRender: 10,
+	Pty: 55, PtyRowsMax: 8, Delay: 15, Fillers: []string{"bar", "bar", "spinner", "spinnerv"}, LateAdd: true, Cancel: 5, PrioMidRender: 10, PlainDecors: 1,
 }
 
 func genC04(t *rapid.T) interface{} {
@@ -228,8 +231,18 @@ func runC04(ci interface{}) Result {
 			r.Err, r.Kind = fmt.Errorf("frame %d has %d rows, the height is %d", k, len(barRows), mf.Height), "too-tall"
 			return r
 		}
-		if cols > 0 {
+		if wlim := cols; wlim > 0 || sc.Cfg.PtyRows == 0 {
+			if wlim == 0 {
+				// not a terminal: the requested width, 80 when none was requested
+				if wlim = sc.Cfg.Width; wlim <= 0 {
+					wlim = 80
+				}
+			}
+			cols := wlim
 			for _, br := range barRows {
+				if c04TagFill.MatchString(br) {
+					continue // (the harness's own "tag" filler ignores the width it is given)
+				}
 				if w := runewidth.StringWidth(br); w > cols {
 					r.Err, r.Kind = fmt.Errorf("frame %d: row %q is %d columns wide, the terminal has %d", k, br, w, cols), "too-wide"
 					return r
